@@ -99,6 +99,9 @@ int main(int argc, char** argv) {
   MUT("replace_it2_s", replace(IT(i1), IT(i2), cstr), t.replace(SI(i1), SI(i2), cstr))
   MUT("replace_it2_sn", replace(IT(i1), IT(i2), cstr, count2), t.replace(SI(i1), SI(i2), cstr, count2))
   MUT("replace_it2_cc", replace(IT(i1), IT(i2), count2, ch), t.replace(SI(i1), SI(i2), std::min<size_t>(count2, 2 * CV_L + 2), ch))
+  MUT("insert_it_il", insert(IT(i1), std::initializer_list<char>(buf, count2)), t.insert(SI(i1), buf, buf + count2))   // private (pointer, length) constructor: -fno-access-control
+  MUT("replace_it2_il", replace(IT(i1), IT(i2), std::initializer_list<char>(buf, count2)), t.replace(SI(i1), SI(i2), buf, count2))
+  else if (m == "replace_it2_si") { size_t j1 = Z("j1"), j2 = Z("j2"); o->replace(IT(i1), IT(i2), S.begin() + j1, S.begin() + j2); if (content) { std::string t = old; t.replace(SI(i1), SI(i2), S.begin() + j1, S.begin() + j2); exp = cut(t); } }
   else if (m == "replace_it2_ii") { FS* p = mk("other_len", "other_c"); std::string po = view(p); size_t j1 = Z("j1"), j2 = Z("j2");
     FS::iterator f = (j1 == std::string::npos) ? p->end() : FS::iterator(p, j1), l = (j2 == std::string::npos) ? p->end() : FS::iterator(p, j2);
     o->replace(IT(i1), IT(i2), f, l); if (content) { std::string t = old; t.replace(SI(i1), SI(i2), j1 == std::string::npos ? po.end() : po.begin() + j1, j2 == std::string::npos ? po.end() : po.begin() + j2); exp = cut(t); } delete p; }
@@ -162,6 +165,7 @@ int main(int argc, char** argv) {
     else if (m == "iter_crev") for (auto it = o->crbegin(); it != o->crend() && got.size() <= CV_L; ++it) got += *it;
     else for (auto it = co->rbegin(); it != co->rend() && got.size() <= CV_L; ++it) got += *it;
     std::string e = rev ? std::string(old.rbegin(), old.rend()) : old; if (got != e) return bad(m.c_str(), e, got); }
+  else if (m == "sprintf") { size_t w = Z("would"); if (w > (1u << 20)) w = (1u << 20); std::string big(w, 'x'); o->sprintf("%s", big.c_str()); }   // output of `would` characters
   else if (m == "copy") { char* d = (char*)malloc(count ? count : 1); memset(d, 0x55, count ? count : 1); r = o->copy(d, count, pos); have_r = true; if (content) { std::string t = old; er = t.copy(d, count, pos); } free(d); }
   else if (m == "substr") { std::string g = o->substr(pos, count); if (content) { std::string e = old.substr(pos, count); if (g != e) return bad("substr", e, g); } }
   else { printf("NOT-REPRODUCED: no replay for method %s\n", m.c_str()); return 0; }
